@@ -105,6 +105,30 @@ class Parser:
         node.loc = SourceLocation(t.line, t.column)
         return node
 
+    def _offset(self, token: Token) -> int:
+        """Index of a token's first character in the source text."""
+        starts = getattr(self, "_line_starts", None)
+        if starts is None:
+            starts = [0]
+            for i, ch in enumerate(self.lexer.source):
+                if ch == "\n":
+                    starts.append(i + 1)
+            self._line_starts = starts
+        line = min(max(token.line, 1), len(starts))
+        return starts[line - 1] + token.column - 1
+
+    def _with_source(self, node: Node, start_token: Token) -> Node:
+        """Remember the source text of a function (from start_token to the token
+        just consumed): it is what the function's toString gives."""
+        try:
+            begin = self._offset(start_token)
+            end = self._offset(self.previous) + 1
+            text = self.lexer.source[begin:end]
+            node.source_text = text if begin < end else None
+        except Exception:
+            node.source_text = None
+        return node
+
     def _advance(self) -> Token:
         """Advance to next token and return previous."""
         self.previous = self.current
@@ -621,10 +645,13 @@ class Parser:
 
     def _parse_function_declaration(self) -> FunctionDeclaration:
         """Parse function declaration."""
+        start = self.previous  # the `function` keyword
         name = self._expect(TokenType.IDENTIFIER, "Expected function name")
         params = self._parse_function_params()
         body = self._parse_function_body()
-        return FunctionDeclaration(Identifier(name.value), params, body)
+        return self._with_source(
+            FunctionDeclaration(Identifier(name.value), params, body), start
+        )
 
     def _parse_function_params(self) -> List[Identifier]:
         """Parse function parameters."""
@@ -754,6 +781,7 @@ class Parser:
 
     def _parse_arrow_function_single_param(self) -> ArrowFunctionExpression:
         """Parse arrow function with single unparenthesized param."""
+        start = self.current
         param = Identifier(self._advance().value)  # Get the param name
         if self._check(TokenType.ARROW) and self.current.line != self.previous.line:
             raise self._error("Line break before '=>'")
@@ -762,11 +790,15 @@ class Parser:
         if self._check(TokenType.LBRACE):
             # Block body
             body = self._parse_function_body()
-            return ArrowFunctionExpression([param], body, expression=False)
+            return self._with_source(
+                ArrowFunctionExpression([param], body, expression=False), start
+            )
         else:
             # Expression body
             body = self._parse_assignment_expression()
-            return ArrowFunctionExpression([param], body, expression=True)
+            return self._with_source(
+                ArrowFunctionExpression([param], body, expression=True), start
+            )
 
     def _parse_arrow_function_params(self) -> ArrowFunctionExpression:
         """Parse arrow function with parenthesized params."""
@@ -775,6 +807,7 @@ class Parser:
 
     def _parse_arrow_function_params_after_lparen(self) -> ArrowFunctionExpression:
         """Parse arrow function after '(' has been consumed."""
+        start = self.previous  # the '('
         params: List[Identifier] = []
         if not self._check(TokenType.RPAREN):
             params.append(
@@ -799,11 +832,15 @@ class Parser:
         if self._check(TokenType.LBRACE):
             # Block body
             body = self._parse_function_body()
-            return ArrowFunctionExpression(params, body, expression=False)
+            return self._with_source(
+                ArrowFunctionExpression(params, body, expression=False), start
+            )
         else:
             # Expression body
             body = self._parse_assignment_expression()
-            return ArrowFunctionExpression(params, body, expression=True)
+            return self._with_source(
+                ArrowFunctionExpression(params, body, expression=True), start
+            )
 
     def _parse_conditional_expression(self, exclude_in: bool = False) -> Node:
         """Parse conditional (ternary) expression."""
@@ -1421,9 +1458,10 @@ class Parser:
 
     def _parse_function_expression(self) -> FunctionExpression:
         """Parse function expression."""
+        start = self.previous  # the `function` keyword
         name = None
         if self._check(TokenType.IDENTIFIER):
             name = Identifier(self._advance().value)
         params = self._parse_function_params()
         body = self._parse_function_body()
-        return FunctionExpression(name, params, body)
+        return self._with_source(FunctionExpression(name, params, body), start)
